@@ -363,3 +363,151 @@ pdu_contracts("AlterContext", "dpapi_ng._rpc._bind", "ALTER_CONTEXT", bind_body_
 pdu_contracts("BindAck", "dpapi_ng._rpc._bind", "BIND_ACK", bindack_body_fresh, bindack_body_rope)
 pdu_contracts("AlterContextResponse", "dpapi_ng._rpc._bind", "ALTER_CONTEXT_RESP", bindack_body_fresh, bindack_body_rope, pack_owner="BindAck")
 pdu_contracts("BindNak", "dpapi_ng._rpc._bind", "BIND_NAK", bindnak_body_fresh, bindnak_body_rope, nak=True)
+
+
+# ================================================================================================ verification trailer (MS-RPCE 2.2.2.13)
+VT_SIGNATURE = b"\x8a\xe3\x13\x71\x02\xf4\x36\x71"
+MAX_COMMANDS = 3
+
+
+def cmd_flags_fresh(c, prefix, end=None):
+    """command flags: END (0x4000) and MUST_PROCESS (0x8000) bits"""
+    must = c.fresh(T.int(0, 1), prefix + ".must")
+    e = c.fresh(T.int(0, 1), prefix + ".end") if end is None else (1 if end else 0)
+    return enum_val(c, "CommandFlags", Z(e) * 0x4000 + must * 0x8000), e
+
+
+def command_rope(c, ctype, flags, value):
+    # command u16 = type (low 14 bits) | flags ; length u16 ; value
+    return c.rope(c.le(Z(ctype) + Z(c.I.as_int(flags)), 2), c.le(c.len(value), 2), value)
+
+
+def command_fresh(c, prefix, end=None):
+    """One of: bitmask, pcontext, header2, unknown command type - returns (object, rope)"""
+    kind = c.ctx.choose(4, prefix + ".kind")
+    flags, _ = cmd_flags_fresh(c, prefix, end)
+    if kind == 0:
+        bits = c.fresh(U32, prefix + ".bits")
+        value = c.rope(c.le(bits, 4))
+        obj = SObj(cls(c, "CommandBitmask"), {"command": enum_val(c, "CommandType", 1, "SEC_VT_COMMAND_BITMASK_1"), "flags": flags, "value": SBytes(R.Rope()), "bits": bits,
+                                               "CLIENT_SUPPORT_HEADER_SIGNING": 1})
+        return obj, command_rope(c, 1, flags, value), value
+    if kind == 1:
+        i, t = syntax_fresh(c, prefix + ".interface"), syntax_fresh(c, prefix + ".transfer")
+        value = c.rope(syntax_rope(c, i), syntax_rope(c, t))
+        obj = SObj(cls(c, "CommandPContext"), {"command": enum_val(c, "CommandType", 2, "SEC_VT_COMMAND_PCONTEXT"), "flags": flags, "value": SBytes(R.Rope()), "interface_id": i, "transfer_syntax": t})
+        return obj, command_rope(c, 2, flags, value), value
+    if kind == 2:
+        pt = fresh_enum(c, "PacketType", prefix + ".ptype")
+        dr = datarep_fresh(c, prefix + ".drep")
+        call_id, ctx_id, opnum = c.fresh(U32, prefix + ".call_id"), c.fresh(U16, prefix + ".context_id"), c.fresh(U16, prefix + ".opnum")
+        value = c.rope(c.le(c.I.as_int(pt), 1), b"\x00\x00\x00", datarep_rope(c, dr), c.le(call_id, 4), c.le(ctx_id, 2), c.le(opnum, 2))
+        obj = SObj(cls(c, "CommandHeader2"), {"command": enum_val(c, "CommandType", 3, "SEC_VT_COMMAND_HEADER2"), "flags": flags, "value": SBytes(R.Rope()),
+                                               "packet_type": pt, "data_rep": dr, "call_id": call_id, "context_id": ctx_id, "opnum": opnum})
+        return obj, command_rope(c, 3, flags, value), value
+    ctype = c.fresh(T.int(4, 0x3FFF), prefix + ".type")
+    value = c.fresh(T.bytes(max_len=0xFFFF), prefix + ".value")
+    obj = SObj(cls(c, "Command"), {"command": enum_val(c, "CommandType", ctype), "flags": flags, "value": value})
+    return obj, command_rope(c, ctype, flags, value), value
+
+
+def semantic_eq(c, got, want, raw_value):
+    """Equality of a decoded command with the encoded one: same class and declared fields; a known command
+    mirrors its raw value bytes in `.value` after decoding (by design of the library)."""
+    if not isinstance(got, SObj) or got.cls.ref != want.cls.ref:
+        return False
+    conj = []
+    for k, v in want.fields.items():
+        if k == "value" and want.cls.name != "Command":
+            conj.append(c.eq(got.fields[k], raw_value))
+        else:
+            conj.append(c.eq(got.fields[k], v))
+    return c.And(*conj)
+
+
+@REG.contract("dpapi_ng._rpc._verification.Command.unpack", props=["C12"], inline=True)
+def command_unpack(c):
+    class_param(c, "Command")
+    obj, rope, raw = command_fresh(c, "cmd")
+    c.param("data", T.const(c.rope(rope, c.fresh(T.Bytes, "rest"))))
+    c.ensures("decodes-the-encoded-command", lambda r: semantic_eq(c, r, obj, raw))
+    c.raises_only(set())
+
+
+def _cmd_pack(cls_name, kind_index):
+    def spec(c):
+        # force the case of this class
+        obj = rope = None
+        for _ in range(1):
+            obj, rope, raw = command_fresh(c, "self")
+        if obj.cls.name != cls_name:
+            from pyvc.values import PathEnd
+
+            raise PathEnd()
+        c.param("self", T.const(obj))
+        c.returns(rope)
+        c.raises_only(set())
+
+    return spec
+
+
+for _i, _n in enumerate(["CommandBitmask", "CommandPContext", "CommandHeader2", "Command"]):
+    REG.contract(f"dpapi_ng._rpc._verification.{_n}.pack", props=["C12"], inline=True)(_cmd_pack(_n, _i))
+
+
+def vt_fresh(c):
+    n = 1 + c.ctx.choose(MAX_COMMANDS, "n_commands")
+    cmds, ropes, raws = [], [], []
+    for i in range(n):
+        o, r, raw = command_fresh(c, f"cmd{i}", end=(i == n - 1))  # exactly the last command carries SEC_VT_COMMAND_END
+        cmds.append(o)
+        ropes.append(r)
+        raws.append(raw)
+    return cmds, ropes, raws
+
+
+@REG.contract("dpapi_ng._rpc._verification.VerificationTrailer.pack", props=["C12"], inline=True)
+def vt_pack(c):
+    cmds, ropes, _ = vt_fresh(c)
+    c.param("self", T.const(SObj(cls(c, "VerificationTrailer"), {"signature": SBytes(R.Rope.lit(VT_SIGNATURE)), "commands": cmds})))
+    c.returns(c.rope(VT_SIGNATURE, *ropes))
+    c.raises_only(set())
+
+
+@REG.contract("dpapi_ng._rpc._verification.VerificationTrailer.unpack", props=["C12"], inline=True)
+def vt_unpack(c):
+    class_param(c, "VerificationTrailer")
+    cmds, ropes, raws = vt_fresh(c)
+    c.param("data", T.const(c.rope(VT_SIGNATURE, *ropes)))
+
+    def ok(r):
+        got = r.fields["commands"]
+        if not isinstance(got, list) or len(got) != len(cmds):
+            return False
+        return c.And(*[semantic_eq(c, g, w, raw) for g, w, raw in zip(got, cmds, raws)])
+
+    c.ensures("decodes-the-encoded-commands", ok)
+    c.raises_only(set())
+
+
+@REG.variant("dpapi_ng._rpc._verification.VerificationTrailer.unpack", "arbitrary-bytes", props=["C12"])
+def vt_unpack_any(c):
+    """Termination and linear work on arbitrary bytes: every iteration consumes at least the 4-byte command header."""
+    class_param(c, "VerificationTrailer")
+    data = c.param("data", T.bytes(max_len=0xFFFF))
+    n = c.len(data)
+    c.raises("Exception", when=None)  # C12 constrains the work, not the error type, of this decoder
+    c.raises_only({"Exception"})
+    c.ghost_bound("ticks", 2 * Z(n) + 16)  # linear in the input: at most 6 steps per 4 bytes consumed
+
+    def havoc_list(I_, cur, s):
+        from pyvc.values import SList
+
+        return SList(fresh_int("n_commands"), lambda j: None)
+
+    c.loop(
+        0,
+        invariant=lambda s: [Z(s.ticks) * 4 <= 6 * (Z(n) - Z(c.len(s.view))) + 24, Z(c.len(s.view)) <= Z(n)],
+        variant=lambda s: Z(c.len(s.view)),
+        havoc={"commands": havoc_list},
+    )
